@@ -31,7 +31,8 @@ Inductive value :=
 | VNone            (* noneVal{} *)
 | VNil.            (* a nil interface: unset global / local slot *)
 
-Inductive perr := EStackOverflow | EDivZero | EBadRepetition | EBounds | EIndexValue | EMapKey | ESlice.
+Inductive perr := EStackOverflow | EDivZero | EBadRepetition | EBounds | EIndexValue | EMapKey | ESlice
+                | ERangeValue.   (* only produced by the _fixed variants (proposed_fixes/C16-zero-step-range.diff) *)
 Inductive crash := CUnderflow | COperand | CDecode | CType.
 Inductive pres := POk (v : value) | PErr (e : perr) | PCrash (c : crash).
 
@@ -409,6 +410,40 @@ Definition exec (p : program) (s : vmstate) (o : opc) (arg next : N) : outcome :
           end
       end
   end.
+
+(* ---------- the VM with the proposed repairs (proposed_fixes/C16-*.diff) ---------- *)
+(* arrayVal.Set through normalizeIndex (C16-fractional-index-write.diff) *)
+Definition set_index_check_fixed (args : list value) : option pres :=
+  match args with
+  | [VNum f; VArr l; _] =>
+      match normalize_index f (List.length l) false with
+      | IErr e => Some (PErr e)
+      | IOk _ => None
+      end
+  | _ => set_index_check args
+  end.
+
+(* OpStepRange with a zero step is ErrRangeValue (C16-zero-step-range.diff) *)
+Definition zero_step (stk : list value) : bool :=
+  match stk with
+  | VNum _ :: VNum step :: VNum _ :: _ => PrimFloat.eqb step 0
+  | _ => false
+  end.
+
+Definition exec_fixed (p : program) (s : vmstate) (o : opc) (arg next : N) : outcome :=
+  match o with
+  | StepRange => if zero_step (ostack s) then Failed ERangeValue else exec p s o arg next
+  | SetIndex =>
+      if (List.length (ostack s) <? 3)%nat then exec p s o arg next else
+      match set_index_check_fixed (firstn 3 (ostack s)) with
+      | Some (PErr e) => Failed e
+      | _ => exec p s o arg next
+      end
+  | _ => exec p s o arg next
+  end.
+(* (the other two repairs — repetition deep copy, strings by code point — do
+   not have a _fixed variant here: this model has value semantics for arrays
+   already, and its strings are byte strings by construction) *)
 
 (* one iteration of `for ip := 0; ip < len(vm.instructions); ip++` *)
 Definition vm_step (p : program) (s : vmstate) : outcome :=
